@@ -480,6 +480,9 @@ CMAP_SHAPES = {
     'dbcs': [0x41, 0x43, 0x8140, 0x8142, 0x8143, 0x8240],
     'dbcs-only': [0x8140, 0x8141, 0x8143, 0x9F40],
     'sbcs': [0x20, 0x21, 0x24],
+    # one unbroken run of 36 codes whose glyph ids are in step for 10, out of step for 3, in step for 10, out of step for 3, in step for 10:
+    # format 4 keeps three in-step segments and must fill BOTH holes between them (splitRange)
+    'three-in-step': list(range(0x100, 0x124)),
 }
 
 
@@ -564,7 +567,7 @@ def spec_cmap12(d, c):
                       'ttLib/tables/_c_m_a_p.py:cmap_format_4.compile', 'ttLib/tables/_c_m_a_p.py:splitRange', 'ttLib/tables/_c_m_a_p.py:cmap_format_4.decompile',
                       'ttLib/tables/_c_m_a_p.py:cmap_format_12_or_13.compile', 'ttLib/tables/_c_m_a_p.py:cmap_format_12_or_13.decompile', 'ttLib/tables/_c_m_a_p.py:_make_map',
                       'ttLib/ttFont.py:getSearchRange'],
-        bounds='cmap subtables format 4, 12 and 2: concrete code-point sets from 10 shapes (runs of 5/12/20, two runs, scattered, next to 0xFFFF, beyond the BMP; for format 2 '
+        bounds='cmap subtables format 4, 12 and 2: concrete code-point sets from 11 shapes (runs of 5/12/20, two runs, scattered, next to 0xFFFF, beyond the BMP, a run of 36 with three in-step stretches (a+i, b+i, c+i) and two out-of-step ones; for format 2 '
                'one-byte codes with a hole, two lead bytes, a hole inside a two-byte range) x '
                'SYMBOLIC glyph ids a + i (i < k) and b + (i - k) (i >= k), a, b in [1, 60000] (b either continues the a-run or is clear of it), k from the parameter: the character -> glyph '
                'mapping read back by a reader written from the spec (segment search, idDelta mod 65536, idRangeOffset indexing; sequential groups; format 2 subHeaderKeys, '
@@ -574,16 +577,21 @@ def spec_cmap12(d, c):
         shims=['struct', 'array'],
         quick=[dict(fmt=4, shape='run12', k=k) for k in (0, 3, 6)] + [dict(fmt=4, shape='run5', k=2), dict(fmt=4, shape='two-runs', k=1), dict(fmt=4, shape='two-runs', k=5), dict(fmt=4, shape='scattered', k=2), dict(fmt=4, shape='top', k=1),
                                                                      dict(fmt=12, shape='astral', k=3), dict(fmt=12, shape='run5', k=2),
-                                                                     dict(fmt=2, shape='dbcs', k=2), dict(fmt=2, shape='dbcs-only', k=1), dict(fmt=2, shape='sbcs', k=1)],
+                                                                     dict(fmt=2, shape='dbcs', k=2), dict(fmt=2, shape='dbcs-only', k=1), dict(fmt=2, shape='sbcs', k=1), dict(fmt=4, shape='three-in-step', k=0)],
         thorough=[dict(fmt=4, shape=s, k=k) for s in ('run12', 'run5', 'two-runs', 'scattered', 'top', 'run20') for k in (0, 1, 2, 3, 5, 6, 9, 11) if k < len(CMAP_SHAPES[s])]
         + [dict(fmt=12, shape=s, k=k) for s in ('astral', 'run5', 'two-runs', 'scattered') for k in (0, 1, 2, 3)]
-        + [dict(fmt=2, shape=s, k=k) for s in ('dbcs', 'dbcs-only', 'sbcs') for k in (0, 1, 2, 3)], conc_cap=80, max_paths=100000)
+        + [dict(fmt=2, shape=s, k=k) for s in ('dbcs', 'dbcs-only', 'sbcs') for k in (0, 1, 2, 3)] + [dict(fmt=4, shape='three-in-step', k=0), dict(fmt=12, shape='three-in-step', k=0)],
+        conc_cap=80, max_paths=100000)
 def cmap_roundtrip(fmt, shape, k):
     codes = CMAP_SHAPES[shape]
     a = V.int('a', 1, 60000)
     b = V.int('b', 1, 60000)
     assume(disj([eq(b, a + k), le(a + 40, b), le(b + 40, a)]))      # b continues the a-run exactly, or lies clear of it
     gids = [a + i if i < k else b + (i - k) for i in range(len(codes))]
+    if shape == 'three-in-step':
+        c = V.int('c', 1, 60000)
+        assume(conj([disj([le(a + 60, c), le(c + 60, a)]), disj([le(b + 60, c), le(c + 60, b)]), disj([le(a + 60, b), le(b + 60, a)])]))
+        gids = [a + i for i in range(10)] + [a + 22, a + 21, a + 20] + [b + i for i in range(10)] + [b + 22, b + 21, b + 20] + [c + i for i in range(10)]
     names = ['n%d' % i for i in range(len(codes))]
     font = _CmapFont(dict(zip(names, gids)))
     st = CM.CmapSubtable.newSubtable(fmt)
